@@ -176,6 +176,14 @@ func randScenario(r *rand.Rand) Scenario {
 	}
 	if r.Intn(4) == 0 {
 		sc.TimeoutMs = 1
+		switch r.Intn(4) { // try-push style timeouts: 0, 1 µs, 50 µs
+		case 0:
+			sc.TimeoutUs = -1
+		case 1:
+			sc.TimeoutUs = 1
+		case 2:
+			sc.TimeoutUs = 50
+		}
 	}
 	npin := 0
 	if r.Intn(2) == 0 {
@@ -453,6 +461,9 @@ func shapeKey(s Scenario) string {
 		if s.EarlyWait {
 			extra += "early"
 		}
+	}
+	if s.TimeoutUs != 0 {
+		extra += fmt.Sprintf(" tus%d", s.TimeoutUs)
 	}
 	return fmt.Sprintf("L%dQ%d t%d pins%d prod%d n%d %v cancel=%s/%s#%d post%d%s", s.LaneSize, s.QueueSize, s.TimeoutMs, len(s.Pins), len(s.Producers), n, k, s.Cancel.Kind, s.Cancel.Point, s.Cancel.Hit, s.PostPush, extra)
 }
